@@ -122,6 +122,27 @@ def pair_case(args):
                 sig = "%s|%s|root:%s|edges:%s|%s%s" % (kind, which, "none" if not c else "ctx", edges, bad[0], "|root-invoked:" + how if how != "call" else "")
                 out["violations"].append((sig, bad[1] + "\nbackend=%s plan=%s contexts=(%s, %s) root invoked: %s" % (kind, plan, ca, cb, how), {"pair": [kind, plan, ca, cb, how]}))
                 break
+        if not out["violations"]:
+            # the records as they come back from the store (a new backend object: nothing is served from memory): every
+            # invocation listed in a record carries the context arguments that call was made under
+            if kind != "mem":
+                use(mk_backend("fs", os.path.join(top, "s")))
+            for (n, pj, ce) in sorted(seen):
+                eff = json.loads(ce)
+                pl = json.loads(pj)
+                g = nodes[n] if not eff else nodes[n].with_context_args(real_ctx(eff, fx))
+                mm = g.memento(pl)
+                if mm is None:
+                    continue
+                want_inv = [canon(act[3] if act[3] is not None else eff) for act in pl if act[0] == "ctx"]
+                got_inv = [canon(norm_ctx(i.context_args)) for i in mm.invocation_metadata.invocations]
+                out["transitions"] += 1
+                if got_inv != want_inv:
+                    edges = "+".join("inherit" if a is None else ("empty" if a == {} else "override") for a in _edges(plan))
+                    out["violations"].append(("%s|stored-record|edges:%s|invocation-context" % (kind, edges),
+                                              "the stored record of n%d(%s) under %s lists its invocations under contexts %s, they were made under %s\nbackend=%s plan=%s contexts=(%s, %s)"
+                                              % (n, pj, ce, got_inv, want_inv, kind, plan, ca, cb), {"pair": [kind, plan, ca, cb, how]}))
+                    break
         out["outcomes"].append("%s|%s|%s" % (json.dumps(plan), canon(ca), canon(cb)))
     finally:
         rm(top)
